@@ -13,6 +13,7 @@ struct Geo {
   std::vector<Point64> singles;       // 1-point paths
   std::vector<Point64> joints;        // interior vertices (all vertices for Joined)
   std::vector<std::pair<Point64, PointD>> ends;  // open end points with outward unit direction
+  std::vector<size_t> endSeg;         // index (into segs) of the segment each end belongs to
 };
 
 Geo build(const Paths64& paths, bool joined) {
@@ -26,12 +27,15 @@ Geo build(const Paths64& paths, bool joined) {
     if (p.size() == 1) { g.singles.push_back(p[0]); continue; }
     bool closed = joined && p.size() >= 3;   // a 2-point "joined" path is stroked as an open path with round/square ends
     size_t n = p.size(), m = closed ? n : n - 1;
+    size_t firstSeg = g.segs.size();
     for (size_t k = 0; k < m; ++k) g.segs.push_back({p[k], p[(k + 1) % n], (int)pi, !closed && k == 0, !closed && k == m - 1});
     for (size_t k = 0; k < n; ++k) if (closed || (k > 0 && k < n - 1)) g.joints.push_back(p[k]);
     if (!closed) {
       auto dir = [](const Point64& from, const Point64& to) { double dx = (double)(to.x - from.x), dy = (double)(to.y - from.y), l = std::hypot(dx, dy); return PointD(dx / l, dy / l); };
       g.ends.push_back({p[0], dir(p[1], p[0])});
+      g.endSeg.push_back(firstSeg);
       g.ends.push_back({p[n - 1], dir(p[n - 2], p[n - 1])});
+      g.endSeg.push_back(g.segs.size() - 1);
     }
   }
   return g;
@@ -61,13 +65,16 @@ int expect(const Geo& g, const Point64& p, double ad, JoinType jt, EndType et, d
   if (d >= ad * f + tol) return 0;
   if (eet == EndType::Butt) {
     // beyond a flat end: not covered unless another segment is near
-    for (auto& e : g.ends) {
+    for (size_t ei = 0; ei < g.ends.size(); ++ei) {
+      auto& e = g.ends[ei];
       ld along = ((ld)p.x - e.first.x) * e.second.x + ((ld)p.y - e.first.y) * e.second.y;
       if (along <= tol) continue;
-      // distance to everything except the end segment this end belongs to
+      // distance to everything except the end segment this end belongs to (identified by index: a polyline drawn back
+      // to its start has both ends at one point, and each end's own segment is a different one)
       ld other = 1e300L;
-      for (auto& s : g.segs) {
-        bool own = (s.firstOfOpen && s.a == e.first) || (s.lastOfOpen && s.b == e.first);
+      for (size_t si = 0; si < g.segs.size(); ++si) {
+        auto& s = g.segs[si];
+        bool own = si == g.endSeg[ei];
         if (own) {
           // the own segment still covers the strip before the end line; p is beyond the line, so only its
           // other end's join could reach p: use the distance to the far part (the segment shortened by nothing)
@@ -181,12 +188,15 @@ Verdict judge(const Case& c) {
   for (JoinType jt : JTS)
     for (EndType et : ETS) {
       // joined ends treat a path as closed: closing edges must respect the angle condition as well
+      // the model of a Joined path that is drawn back to its start (last vertex == first) is the cycle without the repeat
+      Paths64 modelPaths = paths;
+      if (et == EndType::Joined) for (auto& p : modelPaths) if (p.size() >= 4 && p.front() == p.back()) p.pop_back();
       if (et == EndType::Joined) {
         bool ok = true;
-        for (auto& p : paths) if (p.size() >= 3 && !OFS::validSimple(Paths64{p}, 10.0, true)) ok = false;
+        for (auto& p : modelPaths) if (p.size() >= 3 && !OFS::validSimple(Paths64{p}, 10.0, true)) ok = false;
         if (!ok) { ST.count("joined_skipped_closing_angle"); continue; }
       }
-      Geo g = build(paths, et == EndType::Joined);
+      Geo g = build(modelPaths, et == EndType::Joined);
       Paths64 solP = offset(paths, ad, jt, et, ml, at, rev);
       Paths64 solN = offset(paths, -ad, jt, et, ml, at, rev);
       Paths64 solR = offset(reversed, ad, jt, et, ml, at, rev);
@@ -250,7 +260,12 @@ Case gen() {
     int kind = (int)G::range(0, 5);
     if (kind == 0) paths.push_back(GEN::randomPath(1, 1, (int64_t)R, cx, 0));
     else if (kind == 1) paths.push_back(GEN::randomPath(2, 2, (int64_t)R, cx, 0));
-    else paths.push_back(GEN::randomPath(3, 8, (int64_t)R, cx, 0));
+    else {
+      Path64 p = GEN::randomPath(3, 8, (int64_t)R, cx, 0);
+      if (G::chance(12)) GEN::axisAlignSome(p, 60);                      // exactly horizontal / vertical segments, 90-degree turns
+      if (G::chance(8)) { p.push_back(p[0]); ST.count("polyline_drawn_back_to_its_start"); }   // last vertex == first
+      paths.push_back(p);
+    }
   }
   if (G::chance(2)) {
     // large: one polyline of 80-250 vertices along a ring (strokes with hundreds of vertices: size-dependent behaviour)
